@@ -42,12 +42,18 @@ def spec(tier):
 PLAN_CHAIN = {'shipped': True, 'uniform': ['WO8c', 'FP16', 'DRQ4c', 'SRQ16'],
               'io': ['none']}
 PLANS['chain'] = PLAN_CHAIN
+PLANS['n4'] = {'uniform': [], 'perop': ['NQ', 'SRQ8a'],
+               'io': ['none']}
 
 
 def cases(tier):
   for n in ((4, 5) if tier == 'quick' else (4, 5, 6)):
     for g in eg.chains(n, ['FULLY_CONNECTED', 'TANH', 'RESHAPE']):
       yield {'ir': g, 'rp': 'chain'}
+  # four-operator DAGs (diamonds, three consumers of one tensor) with every
+  # NQ/SRQ8a assignment
+  yield from universe.graph_cases(
+      [(4, ['FULLY_CONNECTED', 'ADD', 'TANH'], 'first', 'none')], {'rp': 'n4'})
   for n, types, variants, exports, pname in spec(tier):
     yield from universe.graph_cases([(n, types, variants, exports)],
                                     {'rp': pname})
